@@ -12,6 +12,7 @@ import Driver.Serialize
 import Driver.Flags
 import Driver.Threads
 import Driver.Diff
+import Driver.Codegen
 open Lean Driver
 
 def dispatch (req : Json) : R Json := do
@@ -25,6 +26,7 @@ def dispatch (req : Json) : R Json := do
   | "flags" => Driver.Flags.handle req
   | "threads" => Driver.Threads.handle req
   | "diff" => Driver.Diff.handle req
+  | "codegen" => Driver.Codegen.handle req
   | "guard" => Driver.Errors.handleGuard req
   | "decorate" => Driver.Errors.handleDecorate req
   | _ => throw "bad-op"
